@@ -286,7 +286,10 @@ pub fn eval(expr: Node) -> Result<Number, Box<dyn error::Error>> {
             if sub_expr < -min_one.exp() {
                 return Err("The Lambert W function is not defined for {}.".into());
             }
-            let iterations = (4).max((sub_expr.log10() / 3.0).ceil() as i32);
+            if sub_expr == f64::INFINITY {
+                return Ok(Number::Float(f64::INFINITY));
+            }
+            let iterations = (4).max((sub_expr.log10() / 3.0).ceil() as i32).min(128);
             let mut w: f64 = 0.0;
             for _ in 0..iterations {
                 #[cfg(feature = "verif_hooks")]
@@ -312,6 +315,9 @@ pub fn eval(expr: Node) -> Result<Number, Box<dyn error::Error>> {
             while n > 1.0 {
                 #[cfg(feature = "verif_hooks")]
                 crate::verif_hooks::tick();
+                if x >= 64 {
+                    return Ok(Number::Float(f64::INFINITY));
+                }
                 x += 1;
                 n = (n.log10() / b.log10()).floor();
             }
